@@ -268,7 +268,7 @@ def eof_rules(ctx, rule):
                 a = st.read_key(a[1])
             if a == ("empty-slice",):
                 return ("const", True, "true", None) if n.endswith("is_empty") else ("const", 0, "0_usize", None)
-        return None
+        return absint.io_model(bb, t, args, st)
     def stop(bb, t, st):
         if t["t"] == "call" and call_matches(t, r"request::new_request$"):
             return "request-built"
